@@ -471,6 +471,41 @@ def r4_validation(ctx, prog):
         else:
             for label, got, want in bad[:4]:
                 r.viol("R4:check_de_inner#" + label, "for branches %s the fallback analysis yields %s, expected %s" % (label, got, want), file=fn.file, line=fn.line)
+    # a count written as a *list* (`["1.0", "_"]`, the list form of `1.0 | _`): a list that holds the fallback is the fallback - so that the
+    # position / multiplicity analysis above sees it, and the generated conditions never meet a fallback inside an alternative
+    vs = [f for f in ctx.ast.fns_named(PR, "visit_seq") if f.impl_self and f.impl_self.startswith("RangeSeed<") and f.body is not None]
+    if not vs:
+        r.missing("RangeSeed::visit_seq")
+    else:
+        from rules import absint as _a4
+        from rules.absint import AEval as _AE4, C as _C4, CF as _CF4, I as _I4, L as _L4, A as _A4, T as _T4
+
+        def next_elem(rv, a):
+            items = _a4.fields_of(rv)["items"][1]
+            if not items:
+                return rv, _C4("Ok", _C4("None"))
+            return _CF4("Seq", items=_L4(*items[1:])), _C4("Ok", _C4("Some", items[0]))
+        E1, E3, FBk = _C4("Exact", _I4(1)), _C4("Exact", _I4(3)), _C4("Fallback")
+        seqs = {"[1, _]": ([E1, FBk], "fallback"), "[_, 1]": ([FBk, E1], "fallback"), "[1, 3]": ([E1, E3], "multi"), "[1]": ([E1], "single"), "[]": ([], "fallback"), "[1, 3, _]": ([E1, E3, FBk], "fallback")}
+        badv = None
+        try:
+            for label, (items, kind) in seqs.items():
+                ev = _AE4(funcs=_a4.file_funcs(ctx.ast, PR, "Range"))
+                ev.mut_builtins = {"next_element_seed": next_elem}
+                got = ev.run_fn(vs[0], [_A4("seed"), _CF4("Seq", items=_L4(*items))])
+                if isinstance(got, str):
+                    raise _a4.Unknown(got)
+                val = got[2][0] if got[0] == "ctor" and got[1] == "Ok" and got[2] else None
+                okv = (kind == "fallback" and val == FBk) or (kind == "single" and val == E1) or \
+                    (kind == "multi" and val is not None and val[0] == "ctor" and val[1] == "Multiple" and sorted(map(repr, val[2][0][1])) == sorted(map(repr, items)))
+                if not okv and badv is None:
+                    badv = "the count list %s is read as %s, expected %s" % (label, _a4.fmt(got)[:120], {"fallback": "the fallback", "single": "that one range", "multi": "the alternatives"}[kind])
+            if badv:
+                r.viol("R4:RangeSeed::visit_seq#list-with-fallback", badv + " - a `_` kept inside an alternative escapes the `fallback must be last` check and is dropped by the generated float conditions", file=vs[0].file, line=vs[0].line)
+            else:
+                r.inst("RangeSeed::visit_seq", "%d count lists: one element -> itself, several -> alternatives, any list holding `_` (or empty) -> the fallback" % len(seqs))
+        except _a4.Unknown as u:
+            r.viol("R4:RangeSeed::visit_seq#undecided", "cannot be interpreted on the current code (%s): not decided (fail closed)" % str(u)[:200], file=vs[0].file, line=vs[0].line)
     fn = ctx.ast.fn(PR, "should_have_fallback")
     if fn is not None:
         t = flatp(show(fn.body))
